@@ -24,6 +24,7 @@ def OPT(x): return NONE if x is None else SOME(x)
 def BOOL(b): return A('true' if b else 'false')
 G = ('_',)
 NL = ('nl',)
+G0 = ('g0',)   # optional gap: allowed by the grammar, empty in the canonical spelling
 
 
 def render(t):
@@ -39,6 +40,7 @@ def spell(lex):
     out = []
     for x in lex:
         if x[0] == '_': out.append(' ')
+        elif x[0] == 'g0': pass   # a gap the grammar allows but the canonical spelling leaves empty
         elif x[0] == 'nl': out.append('\n')
         else: out.append(x[1])
     return ''.join(out)
@@ -53,13 +55,19 @@ def sep(items, sepr):
     return out
 
 
+def address_tree(txt, loc, size):
+    """AddressAssignment of a direct address text such as %MD3.4 (the numeric parts are its `address`)"""
+    digits = txt[2:] if size == 'Nil' else txt[3:]
+    return N('AddressAssignment', ('location', A(loc)), ('size', A(size)), ('address', L([A(str(int(p))) for p in digits.split('.')])))
+
+
 KEYWORDS = None
 
 
 class Gen:
-    def __init__(self, rng, keywords, renderable=False):
-        # renderable: stay inside the constructs the re-renderer handles (C10 `Renderable`, see known_findings.jsonl)
-        self.renderable = renderable
+    def __init__(self, rng, keywords, exclude=()):
+        # exclude: construct classes to stay away from (C10 uses this for the classes listed in known_findings.jsonl)
+        self.excl = frozenset(exclude)
         self.rng = rng
         self.kw = {k.upper() for k in keywords}
         self.counter = 0
@@ -104,16 +112,16 @@ class Gen:
     def signed_integer(self):
         lex, v = self.integer()
         r = self.rng.random()
-        if self.renderable: r = max(r, 0.3)
-        if r < 0.25: return [('p', '-')] + lex, self.sx_signed(v, True)
-        if r < 0.35: return [('p', '+')] + lex, self.sx_signed(v, False)
+        if 'neg-int' in self.excl: r = max(r, 0.3)
+        if r < 0.25: return [('p', '-'), G0] + lex, self.sx_signed(v, True)
+        if r < 0.35: return [('p', '+'), G0] + lex, self.sx_signed(v, False)
         return lex, self.sx_signed(v, False)
 
     def constant(self, kinds=None):
         """-> lex, ConstantKind tree"""
         rng = self.rng
         kinds = kinds or ['int', 'int', 'typed-int', 'based', 'real', 'bool', 'str', 'wstr', 'dur', 'tod', 'date', 'dt', 'bits']
-        if self.renderable:
+        if 'typed-int' in self.excl:
             kinds = [x for x in kinds if x not in ('typed-int',)] or ['int']
         k = rng.choice(kinds)
         self.features.add('const:' + k)
@@ -133,7 +141,7 @@ class Gen:
             txt = rng.choice(['1.5', '0.25', '3.14_15', '2.5E3', '1.0e-2', '6.0E+2', '10.0'])
             sign = rng.choice(['', '', '-', '+'])
             ty = rng.choice([None, None, 'REAL', 'LREAL'])
-            if self.renderable:
+            if 'real-integral' in self.excl:
                 txt = rng.choice(['1.5', '0.25', '3.14_15', '1.0e-2']); sign = rng.choice(['', '+']); ty = None
             lex = ([('kw', ty), ('p', '#')] if ty else []) + ([('p', sign)] if sign else []) + [('lit', txt)]
             val = ('-' if sign == '-' else '') + txt.replace('_', '')
@@ -158,7 +166,7 @@ class Gen:
             whole = rng.randint(0, 500)
             frac = rng.choice(['', '', '.5', '.25', '.125'])
             total = whole * ns + (int(float('0' + frac) * 1000) * ns // 1000 if frac else 0)
-            neg = rng.random() < 0.2 and not self.renderable
+            neg = rng.random() < 0.2 and 'neg-dur' not in self.excl
             pre = rng.choice([('kw', 'TIME'), ('kw', 'T'), ('pk', 't')])
             if pre == ('kw', 'T'): pre = ('pk', 'T')
             lex = [pre, ('p', '#')] + ([('p', '-')] if neg else []) + [('lit', f'{whole}{frac}'), ('pk', unit)]
@@ -198,7 +206,8 @@ class Gen:
             return self.atom()
         r = rng.random()
         if r < 0.12:
-            return ('un', rng.choice(['-', 'NOT']), self.atom(no_const=True))
+            # the operand is a primary expression: an atom, or anything in parentheses
+            return ('un', rng.choice(['-', 'NOT']), self.expr_tree(depth - 1) if rng.random() < 0.5 else self.atom())
         row = rng.choice(self.OPS)
         return ('bin', row, self.expr_tree(depth - 1), self.expr_tree(depth - 1))
 
@@ -230,6 +239,9 @@ class Gen:
         if e[0] == 'un':
             op = e[1]
             ilex, it = self.print_expr(e[2], 99)
+            if e[2][0] == 'un':
+                self.features.add('unary-of-unary')
+                ilex = [('p', '('), G] + ilex + [G, ('p', ')')]
             lex = [('p', '-')] if op == '-' else [('kw', 'NOT')]
             self.features.add('unary:' + op)
             return lex + [G] + ilex, T('UnaryOp', N('UnaryExpr', ('op', A('Neg' if op == '-' else 'Not')), ('term', it)))
@@ -244,6 +256,9 @@ class Gen:
         if level < ctx_level:
             self.features.add('paren')
             return [('p', '('), G] + lex + [G, ('p', ')')], tree
+        if self.rng.random() < 0.05:
+            self.features.add('redundant-paren')
+            return [('p', '('), G] + lex + [G, ('p', ')')], tree
         return lex, tree
 
     def expression(self, depth=None):
@@ -256,13 +271,13 @@ class Gen:
         head = T('Named', N('NamedVariable', ('name', name)))
         n = rng.choice([1, 1, 2]) if force_complex else rng.choice([0, 0, 1, 2])
         for _ in range(n):
-            if rng.random() < 0.5 or self.renderable:
+            if rng.random() < 0.5 or 'array-subscript' in self.excl:
                 flex, f = self.ident()
-                lex += [('p', '.')] + flex
+                lex += [G0, ('p', '.'), G0] + flex
                 head = T('Structured', N('StructuredVariable', ('record', head), ('field', f)))
             else:
                 subs = [self.expression(rng.choice([0, 0, 1])) for _ in range(rng.choice([1, 1, 2]))]
-                lex += [('p', '['), G] + sep([s[0] for s in subs], [G, ('p', ','), G]) + [G, ('p', ']')]
+                lex += [G0, ('p', '['), G] + sep([s[0] for s in subs], [G, ('p', ','), G]) + [G, ('p', ']')]
                 head = T('Array', N('ArrayVariable', ('subscripted_variable', head), ('subscripts', L([s[1] for s in subs]))))
         return lex, head
 
@@ -270,14 +285,14 @@ class Gen:
         if self.rng.random() < 0.1:
             txt, loc, size = self.rng.choice([('%IX1', 'I', 'X'), ('%QW12', 'Q', 'W'), ('%MD3.4', 'M', 'D'), ('%I5', 'I', 'Nil'), ('%qb7', 'Q', 'B')])
             self.features.add('direct-variable')
-            return [('lit', txt)], T('Direct', N('AddressAssignment', ('location', A(loc)), ('size', A(size))))
+            return [('lit', txt)], T('Direct', address_tree(txt, loc, size))
         lex, t = self.symbolic_variable()
         return lex, T('Symbolic', t)
 
     def param_assignment(self):
         rng = self.rng
         r = rng.random()
-        if self.renderable: r = 0.9
+        if 'named-params' in self.excl: r = 0.9
         if r < 0.25:
             slex, s = self.ident(); tlex, t = self.variable()
             neg = rng.random() < 0.3
@@ -311,7 +326,7 @@ class Gen:
     def statement(self, depth):
         rng = self.rng
         kinds = ['assign', 'assign', 'fbcall', 'return', 'exit']
-        if self.renderable: kinds = ['assign']
+        if 'stmt-kinds' in self.excl: kinds = ['assign']
         if depth > 0: kinds += ['if', 'case', 'for', 'while', 'repeat']
         k = rng.choice(kinds)
         self.features.add('stmt:' + k)
@@ -346,16 +361,16 @@ class Gen:
             groups = []
             for _ in range(rng.randint(1, 3)):
                 sels = []
-                for _ in range(1 if self.renderable else rng.choice([1, 1, 2, 3])):
+                for _ in range(1 if 'case-multi' in self.excl else rng.choice([1, 1, 2, 3])):
                     r = rng.random()
-                    if self.renderable: r = rng.choice([0.1, 0.9])
+                    if 'case-multi' in self.excl: r = rng.choice([0.1, 0.9])
                     if r < 0.4:
                         l, t = self.signed_integer(); sels.append((l, T('SignedInteger', t)))
                     elif r < 0.7:
                         l1, t1 = self.signed_integer(); l2, t2 = self.signed_integer()
                         sels.append((l1 + [('p', '..')] + l2, T('Subrange', N('Subrange', ('start', t1), ('end', t2)))))
                     else:
-                        tl, tt = (self.type_name() if rng.random() < 0.3 and not self.renderable else (None, None))
+                        tl, tt = (self.type_name() if rng.random() < 0.3 and 'typed-enum' not in self.excl else (None, None))
                         vl, v = self.ident()
                         sels.append(((tl + [('p', '#')] if tl else []) + vl,
                                      T('EnumeratedValue', N('EnumeratedValue', ('type_name', OPT(tt)), ('value', v)))))
@@ -388,12 +403,12 @@ class Gen:
     # ---------------------------------------------------------------- types
     def subrange(self):
         l1, t1 = self.signed_integer(); l2, t2 = self.signed_integer()
-        return l1 + [('p', '..')] + l2, N('Subrange', ('start', t1), ('end', t2))
+        return l1 + [G0, ('p', '..'), G0] + l2, N('Subrange', ('start', t1), ('end', t2))
 
     def enumerated_value(self, with_type=None):
         rng = self.rng
         with_type = rng.random() < 0.2 if with_type is None else with_type
-        if self.renderable: with_type = False
+        if 'typed-enum' in self.excl: with_type = False
         tl, tt = self.type_name() if with_type else (None, None)
         vl, v = self.ident()
         return (tl + [('p', '#')] if tl else []) + vl, N('EnumeratedValue', ('type_name', OPT(tt)), ('value', v))
@@ -415,10 +430,10 @@ class Gen:
         rng = self.rng
         elems = []
         for _ in range(rng.randint(1, 3)):
-            if rng.random() < 0.3:
+            if rng.random() < 0.3 and 'array-repeated' not in self.excl:
                 sl, sv = self.integer(1, 9)
                 inner = self.constant(['int', 'based', 'bool']) if rng.random() < 0.8 else None
-                lex = sl + [G, ('p', '(')] + (inner[0] if inner else []) + [('p', ')')]
+                lex = sl + [G, ('p', '('), G] + (inner[0] + [G] if inner else []) + [('p', ')')]
                 elems.append((lex, T('Repeated', N('Repeated', ('size', self.sx_integer(sv)), ('init', OPT(T('Constant', inner[1]) if inner else None))))))
             elif rng.random() < 0.7:
                 cl, c = self.constant(['int', 'based', 'real', 'bool'])
@@ -438,7 +453,7 @@ class Gen:
                 cl, c = self.constant(['int', 'real', 'bool', 'str', 'based']); il, it = cl, T('Constant', c)
             elif r < 0.7:
                 el, e = self.enumerated_value(); il, it = el, T('EnumeratedValue', e)
-            elif (r < 0.85 or depth <= 0) and not self.renderable:
+            elif (r < 0.85 or depth <= 0) and 'struct-init-array' not in self.excl:
                 al, a = self.array_initialization(); il, it = al, T('Array', L(a))
             elif depth <= 0:
                 el, e = self.enumerated_value(); il, it = el, T('EnumeratedValue', e)
@@ -479,8 +494,8 @@ class Gen:
     def type_declaration(self):
         """one of the eight forms -> lex, DataTypeDeclarationKind"""
         rng = self.rng
-        k = rng.choice(['enum', 'enum-default', 'enum-alias-default', 'subrange', 'array', 'struct', 'struct-init', 'string', 'string-paren', 'simple', 'latebound'])
-        if self.renderable: k = rng.choice(['enum', 'enum-default', 'enum-alias-default', 'struct', 'string', 'latebound'])
+        kk = [x for x in ['enum', 'enum-default', 'enum-alias-default', 'subrange', 'array', 'struct', 'struct-init', 'string', 'string-paren', 'simple', 'latebound'] if ('type:' + x) not in self.excl]
+        k = rng.choice(kk)
         self.features.add('type:' + k)
         nl, nt = self.type_name()
         head = nl + [G, ('p', ':'), G]
@@ -511,9 +526,9 @@ class Gen:
             for _ in range(rng.randint(1, 3)):
                 el, e = self.ident()
                 r = rng.random()
-                if self.renderable: r = 0.9
+                if 'struct-elem-array' in self.excl: r = 0.9
                 if r < 0.2:
-                    al, a = self.array_specification(); init = self.array_initialization() if rng.random() < 0.4 else None
+                    al, a = self.array_specification(); init = self.array_initialization() if rng.random() < 0.4 and 'var-array-init' not in self.excl else None
                     il = al + ([G, ('p', ':='), G] + init[0] if init else [])
                     it = T('Array', N('ArrayInitialValueAssignment', ('spec', a), ('initial_values', L(init[1] if init else []))))
                 elif r < 0.35:
@@ -562,8 +577,7 @@ class Gen:
         rng = self.rng
         names = [self.ident() for _ in range(rng.choice([1, 1, 1, 2, 3]))]
         nlex = sep([n[0] for n in names], [G, ('p', ','), G]) + [G, ('p', ':'), G]
-        k = rng.choice(['ambiguous', 'ambiguous', 'ambiguous', 'struct-init', 'string', 'array', 'fb'])
-        if self.renderable: k = rng.choice(['ambiguous', 'ambiguous', 'struct-init', 'string'])
+        k = rng.choice([x for x in ['ambiguous', 'ambiguous', 'ambiguous', 'struct-init', 'string', 'array', 'fb'] if ('var:' + x) not in self.excl])
         self.features.add('var:' + k)
         if k == 'ambiguous':
             il, it = self.spec_init_ambiguous()
@@ -579,7 +593,7 @@ class Gen:
             it = T('String', N('StringInitializer', ('length', OPT(self.sx_integer(length[1]) if length else None)), ('width', A('String' if w == 'STRING' else 'WString')),
                                ('initial_value', OPT(L([A(rust_char(c)) for c in body]) if body is not None else None))))
         elif k == 'array':
-            al, a = self.array_specification(); init = self.array_initialization() if rng.random() < 0.5 else None
+            al, a = self.array_specification(); init = self.array_initialization() if rng.random() < 0.5 and 'var-array-init' not in self.excl else None
             il = al + ([G, ('p', ':='), G] + init[0] if init else [])
             it = T('Array', N('ArrayInitialValueAssignment', ('spec', a), ('initial_values', L(init[1] if init else []))))
         else:
@@ -605,7 +619,7 @@ class Gen:
             self.features.add(f'block:{cls}:{q}')
             decls = []
             for _ in range(rng.randint(1, 3)):
-                if cls == 'VAR_INPUT' and rng.random() < 0.2 and not self.renderable:
+                if cls == 'VAR_INPUT' and rng.random() < 0.2 and 'edge' not in self.excl:
                     names = [self.ident() for _ in range(rng.choice([1, 2]))]
                     edge = rng.choice(['R_EDGE', 'F_EDGE'])
                     decls.append(sep([n[0] for n in names], [G, ('p', ','), G]) + [G, ('p', ':'), G, ('kw', 'BOOL'), G, ('kw', edge)])
@@ -625,7 +639,7 @@ class Gen:
                 names = [self.ident() for _ in range(rng.choice([1, 2]))]
                 nlex = sep([n[0] for n in names], [G, ('p', ','), G]) + [G, ('p', ':'), G]
                 r = rng.random()
-                if self.renderable: r = 0.1
+                if 'inout-kinds' in self.excl: r = 0.1
                 if r < 0.5:
                     if rng.random() < 0.5: tl, tt, _ = self.elementary(['INT', 'BOOL', 'REAL'])
                     else: tl, tt = self.type_name()
@@ -663,7 +677,7 @@ class Gen:
                 nl, n = self.ident()
                 txt, loc = rng.choice([('%I*', 'I'), ('%Q*', 'Q'), ('%M*', 'M')])
                 k = rng.choice(['elem', 'named', 'string', 'wstring', 'array', 'subrange', 'values'])
-                if self.renderable: k = rng.choice(['elem', 'named', 'string', 'wstring'])
+                k = rng.choice([x for x in ['elem', 'named', 'string', 'wstring', 'array', 'subrange', 'values'] if ('incompl:' + x) not in self.excl])
                 self.features.add('incomplete:' + k)
                 if k == 'elem':
                     tl, tt, _ = self.elementary(['INT', 'BOOL', 'WORD', 'REAL']); il, it = tl, self.simple_init(tt, None)
@@ -672,7 +686,7 @@ class Gen:
                 elif k in ('string', 'wstring'):
                     w = 'STRING' if k == 'string' else 'WSTRING'
                     length = self.integer(1, 80) if rng.random() < 0.5 else None
-                    il = [('kw', w)] + ([G, ('p', '['), G] + length[0] + [('p', ']')] if length else [])
+                    il = [('kw', w)] + ([G, ('p', '['), G] + length[0] + [G, ('p', ']')] if length else [])
                     it = T('String', N('StringInitializer', ('length', OPT(self.sx_integer(length[1]) if length else None)), ('width', A('String' if w == 'STRING' else 'WString')), ('initial_value', NONE)))
                 elif k == 'array':
                     al, a = self.array_specification(); il, it = al, T('Array', N('ArrayInitialValueAssignment', ('spec', a), ('initial_values', L([]))))
@@ -683,7 +697,7 @@ class Gen:
                 else:
                     vl, vs = self.enum_values(); il, it = vl, T('EnumeratedValues', N('EnumeratedValuesInitializer', ('values', L(vs)), ('initial_value', NONE)))
                 decls.append(nl + [G, ('kw', 'AT'), G, ('lit', txt), G, ('p', ':'), G] + il)
-                ident = T('Direct', N('DirectVariableIdentifier', ('name', SOME(n)), ('address_assignment', N('AddressAssignment', ('location', A(loc)), ('size', A('Unspecified'))))))
+                ident = T('Direct', N('DirectVariableIdentifier', ('name', SOME(n)), ('address_assignment', N('AddressAssignment', ('location', A(loc)), ('size', A('Unspecified')), ('address', L([]))))))
                 variables.append(self.var_decl(ident, 'Var', qn, it))
             lex = [('kw', 'VAR')] + ([G, ('kw', q)] if q else []) + [NL] + sep(decls, [G, ('p', ';'), NL]) + [G, ('p', ';'), NL, ('kw', 'END_VAR')]
             return lex, variables, edges
@@ -698,7 +712,7 @@ class Gen:
                 c = self.constant(['int', 'based', 'bool']) if rng.random() < 0.4 else None
                 decls.append((name[0] + [G] if name else []) + [('kw', 'AT'), G, ('lit', txt), G, ('p', ':'), G] + tl + ([G, ('p', ':='), G] + c[0] if c else []))
                 ident = T('Direct', N('DirectVariableIdentifier', ('name', OPT(name[1] if name else None)),
-                                      ('address_assignment', N('AddressAssignment', ('location', A(loc)), ('size', A(size))))))
+                                      ('address_assignment', address_tree(txt, loc, size))))
                 variables.append(self.var_decl(ident, 'Var', qn, self.simple_init(tt, c[1] if c else None)))
             lex = [('kw', 'VAR')] + ([G, ('kw', q)] if q else []) + [NL] + sep(decls, [G, ('p', ';'), NL]) + [G, ('p', ';'), NL, ('kw', 'END_VAR')]
             return lex, variables, edges
@@ -758,33 +772,40 @@ class Gen:
     # ---------------------------------------------------------------- SFC
     def sfc(self):
         rng = self.rng
+        def assoc_list():
+            assocs = []
+            for _ in range(rng.randint(0, 2)):
+                al, a = self.ident()
+                q = rng.choice([None, 'N', 'R', 'S', 'L', 'D', 'P'])
+                assocs.append((al + [G, ('p', '('), G] + ([('pk', q), G] if q else []) + [('p', ')')],
+                               N('ActionAssociation', ('name', a), ('qualifier', OPT(A(q)) if q else NONE), ('indicators', L([])))))
+            # B.1.6: {action_association ';'}
+            l = []
+            for a in assocs: l += a[0] + [G, ('p', ';'), NL]
+            return l, L([a[1] for a in assocs])
         il, i = self.ident()
-        lex = [('kw', 'INITIAL_STEP'), G] + il + [G, ('p', ':'), NL, ('kw', 'END_STEP'), NL]
-        init = N('Step', ('name', i), ('action_associations', L([])))
+        al, aa = assoc_list() if rng.random() < 0.4 else ([], L([]))
+        lex = [('kw', 'INITIAL_STEP'), G] + il + [G, ('p', ':'), NL] + al + [('kw', 'END_STEP'), NL]
+        init = N('Step', ('name', i), ('action_associations', aa))
         elems = []
         for _ in range(rng.randint(1, 4)):
             k = rng.choice(['step', 'action', 'transition'])
             self.features.add('sfc:' + k)
             if k == 'step':
                 nl, n = self.ident()
-                assocs = []
-                for _ in range(rng.randint(0, 2)):
-                    al, a = self.ident()
-                    q = rng.choice([None, 'N', 'R', 'S', 'L', 'D', 'P'])
-                    assocs.append((al + [G, ('p', '('), G] + ([('pk', q), G] if q else []) + [('p', ')')],
-                                   N('ActionAssociation', ('name', a), ('qualifier', OPT(A(q)) if q else NONE), ('indicators', L([])))))
-                slex = [('kw', 'STEP'), G] + nl + [G, ('p', ':'), NL] + sep([a[0] for a in assocs], [G, ('p', ';'), NL]) + [G, ('p', ';'), NL, ('kw', 'END_STEP')]
-                elems.append((slex, T('Step', N('Step', ('name', n), ('action_associations', L([a[1] for a in assocs]))))))
+                al, aa = assoc_list()
+                slex = [('kw', 'STEP'), G] + nl + [G, ('p', ':'), NL] + al + [('kw', 'END_STEP')]
+                elems.append((slex, T('Step', N('Step', ('name', n), ('action_associations', aa)))))
             elif k == 'action':
                 nl, n = self.ident()
                 bl, b = self.body(allow_sfc=False)
                 elems.append(([('kw', 'ACTION'), G] + nl + [G, ('p', ':'), NL] + bl + [('kw', 'END_ACTION')], T('Action', N('Action', ('name', n), ('body', b)))))
             else:
-                name = self.ident() if rng.random() < 0.3 and not self.renderable else None
-                prio = self.integer(0, 9) if rng.random() < 0.3 and not self.renderable else None
+                name = self.ident() if rng.random() < 0.3 and 'transition-name' not in self.excl else None
+                prio = self.integer(0, 9) if rng.random() < 0.3 and 'transition-name' not in self.excl else None
                 def steps():
                     k = rng.choice([1, 1, 2, 3, 4])
-                    if self.renderable: k = 1
+                    if 'transition-steps' in self.excl: k = 1
                     names = [self.ident() for _ in range(k)]
                     if k == 1: return names[0][0], [names[0][1]]
                     self.features.add(f'sfc:steps{k}')
@@ -821,18 +842,18 @@ class Gen:
         nl, n = self.ident()
         lex = [('kw', 'CONFIGURATION'), G] + nl + [NL]
         g = []
-        if rng.random() < 0.6 and not self.renderable:
+        if rng.random() < 0.6 and 'config-globals' not in self.excl:
             gl, g = self.global_vars(); lex += gl
         rl, r = self.ident(); tl, t = self.ident()
         lex += [('kw', 'RESOURCE'), G] + rl + [G, ('kw', 'ON'), G] + tl + [NL]
         rg = []
-        if rng.random() < 0.3 and not self.renderable:
+        if rng.random() < 0.3 and 'config-globals' not in self.excl:
             gl, rg = self.global_vars(); lex += gl
         tasks = []
         tnames = []
-        for _ in range(0 if self.renderable else rng.randint(0, 2)):
+        for _ in range(0 if 'tasks' in self.excl else rng.randint(0, 2)):
             tnl, tn = self.ident(); tnames.append((tnl, tn))
-            dur = self.constant(['dur']) if rng.random() < 0.7 else None
+            dur = self.constant(['dur']) if rng.random() < 0.7 and 'task-interval' not in self.excl else None
             pl, pv = self.integer(0, 20)
             lex += [('kw', 'TASK'), G] + tnl + [G, ('p', '('), G] + ([('pk', 'INTERVAL'), G, ('p', ':='), G] + dur[0] + [G, ('p', ','), G] if dur else []) + \
                    [('pk', 'PRIORITY'), G, ('p', ':='), G] + pl + [G, ('p', ')'), G, ('p', ';'), NL]
@@ -848,7 +869,7 @@ class Gen:
         lex += sep([p[0] for p in progs], [G, ('p', ';'), NL]) + [('p', ';'), NL, ('kw', 'END_RESOURCE'), NL]
         res = N('ResourceDeclaration', ('name', r), ('resource', t), ('global_vars', L(rg)), ('tasks', L(tasks)), ('programs', L([p[1] for p in progs])))
         fb_inits, loc_inits = [], []
-        if rng.random() < 0.4 and not self.renderable:
+        if rng.random() < 0.4 and 'var-config' not in self.excl:
             self.features.add('var_config')
             inits = []
             for _ in range(rng.randint(1, 2)):
@@ -864,7 +885,7 @@ class Gen:
                     addr = rng.random() < 0.6
                     inits.append(plex + ([G, ('kw', 'AT'), G, ('lit', '%QB1')] if addr else []) + [G, ('p', ':'), G] + etl)
                     loc_inits.append(N('LocatedVarInit', ('resource_name', path[0][1]), ('program_name', path[1][1]), ('fb_path', L([p[1] for p in path[2:]])),
-                                       ('address', OPT(N('AddressAssignment', ('location', A('Q')), ('size', A('B'))) if addr else None)),
+                                       ('address', OPT(address_tree('%QB1', 'Q', 'B') if addr else None)),
                                        ('initializer', self.simple_init(ett, None))))
             lex += [('kw', 'VAR_CONFIG'), NL] + sep(inits, [G, ('p', ';'), NL]) + [('p', ';'), NL, ('kw', 'END_VAR'), NL]
         lex += [('kw', 'END_CONFIGURATION')]
